@@ -1111,7 +1111,13 @@ func c03ResponseNeedsID(c *Ctx) {
 				return false
 			}
 			found := false
-			for _, f := range ir.WithClosures(sc) {
+			scope := append([]*ssa.Function{}, ir.WithClosures(sc)...)
+			for f := range c.ReachSync(sc) { // hasID() called by kind()
+				if c.P.IsLib(f) {
+					scope = append(scope, f)
+				}
+			}
+			for _, f := range scope {
 				ir.EachInstr(f, func(_ *ssa.BasicBlock, _ int, in ssa.Instruction) {
 					if b, ok := in.(*ssa.BinOp); ok {
 						if v, _, ok := nilCompare(b); ok && isIDLoad(v) {
@@ -1243,7 +1249,25 @@ func c06ReaderNotThrottled(c *Ctx) {
 		}
 		ir.EachInstr(fn, func(b *ssa.BasicBlock, _ int, in ssa.Instruction) {
 			g, ok := in.(*ssa.Go)
-			if !ok || !flow.InCycle(b) {
+			if !ok {
+				return
+			}
+			// the loop: around the go statement itself, or around the call of the starter function it sits in
+			type loopAt struct {
+				fn   *ssa.Function
+				args []ssa.Value // what the loop hands the starter (channels among them are shared too)
+			}
+			var loops []loopAt
+			if flow.InCycle(b) {
+				loops = append(loops, loopAt{fn, nil})
+			} else {
+				for _, e := range ir.Callers(c.G, fn) {
+					if site, ok := e.Site.(*ssa.Call); ok && c.P.IsLib(e.Caller.Func) && !clientSide(c, e.Caller.Func) && flow.InCycle(site.Block()) {
+						loops = append(loops, loopAt{e.Caller.Func, site.Call.Args})
+					}
+				}
+			}
+			if len(loops) == 0 {
 				return
 			}
 			mc, ok := g.Call.Value.(*ssa.MakeClosure)
@@ -1287,6 +1311,13 @@ func c06ReaderNotThrottled(c *Ctx) {
 				return
 			}
 			n++
+			for _, lp := range loops {
+				for _, a := range lp.args {
+					if isChan(a) {
+						shared[a] = true
+					}
+				}
+			}
 			// channel values equal to a shared one (directly, or loaded from the shared cell)
 			same := func(v ssa.Value) bool {
 				if shared[v] {
@@ -1298,7 +1329,8 @@ func c06ReaderNotThrottled(c *Ctx) {
 				return false
 			}
 			var bad ssa.Instruction
-			ir.EachInstr(fn, func(b2 *ssa.BasicBlock, _ int, u ssa.Instruction) {
+			loopFn := loops[0].fn
+			ir.EachInstr(loopFn, func(b2 *ssa.BasicBlock, _ int, u ssa.Instruction) {
 				if bad != nil || !flow.InCycle(b2) {
 					return
 				}
@@ -1324,9 +1356,9 @@ func c06ReaderNotThrottled(c *Ctx) {
 			})
 			detail := ""
 			if bad != nil {
-				detail = sprintf("the loop in %s that reads incoming messages and starts a goroutine for each one waits (%s) on a channel it shares with those goroutines: once enough handlers are blocked waiting for the client's answer to a request of their own (roots/list), the reader stops reading — and the answers they wait for are on the stream it no longer reads", fname(fn), ipos(c, bad))
+				detail = sprintf("the loop in %s that reads incoming messages and starts a goroutine for each one waits (%s) on a channel it shares with those goroutines: once enough handlers are blocked waiting for the client's answer to a request of their own (roots/list), the reader stops reading — and the answers they wait for are on the stream it no longer reads", fname(loopFn), ipos(c, bad))
 			}
-			c.R.Check(bad == nil, "R-reader-not-throttled", sprintf("message loop of %s", fname(fn)), c.Pos(g.Pos()), "the loop never blocks on a channel shared with the goroutines it starts", detail)
+			c.R.Check(bad == nil, "R-reader-not-throttled", sprintf("message loop of %s", fname(loopFn)), c.Pos(g.Pos()), "the loop never blocks on a channel shared with the goroutines it starts", detail)
 		})
 	}
 	c.R.Min("R-reader-not-throttled", 1)
@@ -1557,40 +1589,38 @@ func c17AttemptsUnderPolicy(c *Ctx, exec *ssa.Function) {
 			c.R.Check(cfgLocal == "", "R-attempts-under-policy", sprintf("configuration of the executor call in %s", fname(fn)), c.Pos(call.Pos()),
 				"the configured record (or an unmodified copy of it) is handed to the executor",
 				sprintf("%s runs the retry executor under %q, a configuration record it built or adjusted itself, instead of the configured one: the attempt budget and the backoff sequence the user configured are not the ones applied", fname(fn), cfgLocal))
-			// (b) the operation's attempt function
-			var opFn *ssa.Function
-			for _, a := range call.Call.Args {
-				if mc, ok := a.(*ssa.MakeClosure); ok {
-					opFn, _ = mc.Fn.(*ssa.Function)
-				}
-			}
-			if opFn == nil {
-				return
-			}
-			attempt := map[*ssa.Function]bool{}
-			ir.EachCall(opFn, func(cc ssa.CallInstruction) {
-				if sc := ir.StaticCallee(cc); sc != nil && c.P.IsLib(sc) && clientSide(c, sc) {
-					attempt[sc] = true
-				}
-			})
-			var bad ssa.Instruction
-			ir.EachCall(fn, func(cc ssa.CallInstruction) {
-				if bad != nil || cc == ssa.CallInstruction(call) {
-					return
-				}
-				if sc := ir.StaticCallee(cc); sc != nil && attempt[sc] && flow.Reaches(cc, call) {
-					bad = cc
-				}
-			})
-			detail := ""
-			if bad != nil {
-				detail = sprintf("%s makes an attempt of its own (%s) and, when it fails, goes on to hand the same operation to the retry executor: the executor's first attempt is then the caller's first RETRY and is made without any wait, every later wait is one position short of the configured sequence", fname(fn), ipos(c, bad))
-			}
-			c.R.Check(bad == nil, "R-attempts-under-policy", sprintf("attempts outside the executor in %s", fname(fn)), c.Pos(call.Pos()),
-				"every attempt of a retried operation is made by the executor", detail)
 		})
 	}
-	c.R.Min("R-attempts-under-policy", 4)
+	// (b) the operation's attempt function, wherever the operation is supplied (to the executor, or to a helper that
+	// forwards it)
+	for _, ro := range retryOps(c, exec) {
+		fn, call, opFn := ro.by, ro.site, ro.op
+		if opFn == nil || !clientSide(c, fn) {
+			continue
+		}
+		attempt := map[*ssa.Function]bool{}
+		ir.EachCall(opFn, func(cc ssa.CallInstruction) {
+			if sc := ir.StaticCallee(cc); sc != nil && c.P.IsLib(sc) && clientSide(c, sc) {
+				attempt[sc] = true
+			}
+		})
+		var bad ssa.Instruction
+		ir.EachCall(fn, func(cc ssa.CallInstruction) {
+			if bad != nil || cc == call {
+				return
+			}
+			if sc := ir.StaticCallee(cc); sc != nil && attempt[sc] && flow.Reaches(cc, call) {
+				bad = cc
+			}
+		})
+		detail := ""
+		if bad != nil {
+			detail = sprintf("%s makes an attempt of its own (%s) and, when it fails, goes on to hand the same operation to the retry executor: the executor's first attempt is then the caller's first RETRY and is made without any wait, every later wait is one position short of the configured sequence", fname(fn), ipos(c, bad))
+		}
+		c.R.Check(bad == nil, "R-attempts-under-policy", sprintf("attempts outside the executor in %s", fname(fn)), c.Pos(call.Pos()),
+			"every attempt of a retried operation is made by the executor", detail)
+	}
+	c.R.Min("R-attempts-under-policy", 3)
 }
 
 // ---------------------------------------------------------------- R-attempt-ctx (C17)
@@ -1601,19 +1631,8 @@ func c17AttemptsUnderPolicy(c *Ctx, exec *ssa.Function) {
 // would keep running after the caller gave up.
 func c17AttemptCtx(c *Ctx, exec *ssa.Function) {
 	var ops []*ssa.Function
-	for _, fn := range c.P.LibFns {
-		ir.EachCall(fn, func(call ssa.CallInstruction) {
-			if ir.StaticCallee(call) != exec {
-				return
-			}
-			for _, a := range call.Common().Args {
-				if mc, ok := a.(*ssa.MakeClosure); ok {
-					if f, ok := mc.Fn.(*ssa.Function); ok {
-						ops = append(ops, f)
-					}
-				}
-			}
-		})
+	for _, ro := range retryOps(c, exec) {
+		ops = append(ops, ro.op)
 	}
 	if len(ops) < 2 {
 		c.R.Break("R-attempt-ctx: only %d retried operations found", len(ops))
